@@ -691,7 +691,8 @@ class ObjectCatalogue(object):
         if pardim > 0:
             self.lower = ObjectCatalogue(pardim - 1)
         else:
-            self.lower = VertexDict()
+            self.lower = VertexDict(rtol=state.controlpoint_relative_tolerance,
+                                    atol=state.controlpoint_absolute_tolerance)
 
         # Callbacks for events
         self.callbacks = dict()
